@@ -341,7 +341,10 @@ def main(argv=None):
     shard_of_bucket = {}
     for status, shard, payload in results:
         if status != 'ok':
-            harness_errors.append('shard %s crashed:\n%s' % (shard, payload))
+            if not any(h.startswith('shard') for h in harness_errors):
+                harness_errors.append('shard %s crashed:\n%s' % (shard, '\n'.join(payload.splitlines()[-60:])))
+            else:
+                harness_errors.append('shard %s crashed (same run, details omitted)' % shard)
             continue
         total.evaluations += payload['evaluations']
         total.nontrivial += payload['nontrivial']
